@@ -57,6 +57,8 @@ def shards(tier, seed):
         out.append({'fn': 'shard_crc32_len3', 'args': {'p0_lo': 0xfc, 'p0_hi': 0x100}})
     longs = [{'fn': 'shard_long', 'args': {'lens': l}, 'prio': 9} for l in ([4096], [4095], [1024], [1023], [255, 256, 257],
                                                                    [4, 5, 7, 8, 9, 15, 16, 17, 31, 32, 33, 34, 36, 63, 64, 65])]
+    for p in range(8):
+        out.append({'fn': 'shard_history', 'args': {'part': p, 'parts': 8, 'depth': 3 if tier == 'quick' else 4}})
     return out + longs
 
 
@@ -79,6 +81,81 @@ def case_crc32c(rec, data, order):
     if got != want:
         rec.violation(f'crc32c-mismatch:{order}', f'crc32c({data},{order}) = {got!r}, CRC-32C = {want.hex()}',
                       'case_crc32c', {'data': data, 'order': order})
+
+
+# ---------------------------------------------------------------- call histories (explorer S)
+HIST_DATA = [b'', b'\x00', b'123456789', b'\xff' * 4, bytes(range(37)), b'\x00' * 8]
+
+
+def _hist_events():
+    ev = []
+    for di in range(len(HIST_DATA)):
+        ev.append(('crc16', di))
+        for order in ('default', 'little', 'big'):
+            ev.append(('crc32c', di, order))
+    # calls a caller can get wrong: they may raise whatever they like, but must leave nothing behind
+    ev += [('bad', 'crc32c-order', 'Big'), ('bad', 'crc32c-order', None), ('bad', 'crc32c-order', 'be'), ('bad', 'crc32c-data', 'text'),
+           ('bad', 'crc16-data', 'text'), ('bad', 'crc16-data', None), ('bad', 'crc32c-data', [300, 1]), ('bad', 'crc16-data', [300, 1])]
+    return ev
+
+
+HIST_EVENTS = _hist_events()
+
+
+def case_history(rec, hist):
+    """a sequence of checksum calls in one process: every well-formed call returns the CRC of ITS data in ITS byte order,
+    whatever was called (or failed) before"""
+    from pytoniq_core.crypto.crc import crc16, crc32c
+    rec.case('history')
+    rec.state(('hist', tuple(hist)))
+    rec.nontriv(('hist', tuple(hist)))
+    names = [HIST_EVENTS[k] for k in hist]
+    for step, e in enumerate(names):
+        rec.trans()
+        if e[0] == 'bad':
+            try:
+                if e[1] == 'crc32c-order':
+                    crc32c(HIST_DATA[2], e[2])
+                elif e[1] == 'crc32c-data':
+                    crc32c(e[2])
+                else:
+                    crc16(e[2])
+            except Exception:
+                pass
+            continue
+        d = HIST_DATA[e[1]]
+        try:
+            if e[0] == 'crc16':
+                got, want = crc16(d), R.crc16(d)
+            else:
+                got = crc32c(d) if e[2] == 'default' else crc32c(d, e[2])
+                want = R.crc32c(d, 'little' if e[2] == 'default' else e[2])
+        except Exception as ex:
+            rec.violation('history:raises', f'calls {names[:step + 1]}: the last call raised {type(ex).__name__}: {ex}', 'case_history', {'hist': list(hist)})
+            return
+        rec.trace()
+        if got != want:
+            rec.violation('history:' + e[0], f'calls {names[:step + 1]}: the last call returned {got!r}, the checksum of its data is {want.hex()} '
+                          f'(the result depends on earlier calls)', 'case_history', {'hist': list(hist)})
+            rec.outcome('HISTORY-DEPENDENT')
+            return
+    rec.outcome('hist-ok')
+
+
+def shard_history(rec, part, parts, depth):
+    import itertools
+    n = len(HIST_EVENTS)
+    good = [k for k, e in enumerate(HIST_EVENTS) if e[0] != 'bad']
+    k = 0
+    for d in range(1, depth + 1):
+        for pre in itertools.product(range(n), repeat=d - 1):
+            for last in good:                      # histories ending in a well-formed call (the others are their prefixes)
+                k += 1
+                if k % parts == part:
+                    case_history(rec, list(pre) + [last])
+    rec.covered('history')
+    if part == 0:
+        rec.sample({'history': [list(map(str, HIST_EVENTS[-8])), list(map(str, HIST_EVENTS[1]))], 'events': n, 'depth': depth})
 
 
 # ---------------------------------------------------------------- shards
